@@ -29,10 +29,16 @@ class UserError(Exception):
     """exception raised by the user's action"""
 
 
+class StopAfterSystem(Exception):
+    """raised by the LAPACK stub (on request) right after it has recorded its inputs: the rest of the step is
+    not the subject of the harness that asked for it"""
+
+
 class Recorder:
     def __init__(self):
         self.svd_inputs = []       # (matrix, rhs) per lstsq call
         self.steps = []            # stub outputs
+        self.stop_next = False
 
 
 def install(xd, ex, rec):
@@ -57,6 +63,8 @@ def install(xd, ex, rec):
             step = np.array(vals, dtype=float if (vals and all(type(v) is float for v in vals)) else object)
             rec.svd_inputs.append((self.matrix, b))
             rec.steps.append(step)
+            if rec.stop_next:
+                raise StopAfterSystem()
             return step
     J.SVD = StubSVD
     return O, J
